@@ -1,7 +1,8 @@
 #!/bin/bash
 # run.sh <ID> quick|thorough            run the check of one property
 # run.sh <ID> replay <file>             re-execute one recorded violation
-# Rebuilds the overlay from the repository's working tree and the check binary every time.
+# Rebuilds the check binary from the repository's working tree every time; the generated overlay is
+# reused only when the digest of all its inputs is unchanged (VERIF_FORCE_REWRITE=1 regenerates anyway).
 # VERIF_REPO=<dir>  check that tree instead of /repo (used by mutate.sh on scratch worktrees);
 #                   evidence and replays then go to build/alt/<name>/ instead of /verif.
 set -u
@@ -38,7 +39,15 @@ LOCK=$OVDIR/.build.lock
   if [ ! -x build/bin/mcrewrite ] || [ cmd/mcrewrite/main.go -nt build/bin/mcrewrite ]; then
     go build -o build/bin/mcrewrite ./cmd/mcrewrite || exit 2
   fi
-  build/bin/mcrewrite -repo $REPO -out $OVDIR -shim mc -hooks hooks >$OVDIR/rewrite.log 2>&1 || { cat $OVDIR/rewrite.log; exit 2; }
+  # the overlay is a pure function of: the non-test sources of package index and the packages below it,
+  # go.mod/go.sum, the shim, the hook files and the generator; it is regenerated whenever the digest of
+  # those inputs (for this tree, at this path) differs from the one it was generated from
+  KEY=$( { echo "$REPO"; sha256sum build/bin/mcrewrite $REPO/go.mod $REPO/go.sum; find $REPO/index mc hooks -type f -name '*.go' ! -name '*_test.go' | LC_ALL=C sort | xargs sha256sum; } 2>&1 | sha256sum | cut -d' ' -f1)
+  if [ ! -f $OVDIR/overlay.json ] || [ ! -f $OVDIR/overlay_os.json ] || [ "$(cat $OVDIR/.key 2>/dev/null)" != "$KEY" ] || [ -n "${VERIF_FORCE_REWRITE:-}" ]; then
+    rm -f $OVDIR/.key
+    build/bin/mcrewrite -repo $REPO -out $OVDIR -shim mc -hooks hooks >$OVDIR/rewrite.log 2>&1 || { cat $OVDIR/rewrite.log; exit 2; }
+    echo "$KEY" > $OVDIR/.key
+  fi
   RACE=""
   [ -f checks/$id/RACE ] && RACE="-race"
   OV=$OVDIR/overlay.json
